@@ -40,7 +40,8 @@ Theorem c05_position_segmentation_independent : forall reads k s,
   position s = pos_of (firstn k (norm (concat reads))).
 Proof. exact position_segmentation_independent. Qed.
 
-(* ... and the same with charsUntil: after ANY sequence of char() and charsUntil() calls (run_sops, up to the first
+(* ... and the same with charsUntil and the documented use of unget: after ANY sequence of char(), charsUntil() and
+   peek (= char() followed by unget of the character just returned: SPeek) calls (run_sops, up to the first
    EOF from char(); the fuel is the one the executable entry point run_c05 gives charsUntil), for every
    segmentation, the characters delivered so far followed by what remains are the newline-normalised input --
    nothing is lost, repeated or reordered across chunk boundaries -- and position() is the (line, column) the
@@ -51,9 +52,9 @@ Theorem c05_position_after_chars_and_runs : forall reads ops s d,
   norm (concat reads) = d ++ remaining s /\ position s = pos_of d.
 Proof. exact position_after_chars_and_runs_entry. Qed.
 
-(* PARTIAL: unget is modelled (Model/C05.v) and tied to the real class by exact-agreement correspondence on client
-   operation sequences, but positions after IT (unget adjusts the counters by hand) are not covered by the theorems
-   above; byte sources go through codecs decoders that are not modelled. *)
+(* PARTIAL: unget in general (several characters put back, across a chunk boundary, where it adjusts the counters by
+   hand) is modelled (Model/C05.v) and tied to the real class by exact-agreement correspondence on client operation
+   sequences, but positions after such uses are not covered by the theorems above (only the single put-back is); byte sources go through codecs decoders that are not modelled. *)
 
 (* non-vacuity: "a\r\nb" delivered as "a\r" + "\n" + "b" and as single characters *)
 Example c05_example :
@@ -63,6 +64,6 @@ Proof. split; [|split]; [vm_compute; reflexivity | vm_compute; reflexivity | rep
 (* "ab\r" + "\nc" + "d": a run of letters across the CR/LF cut, then the newline, then one character *)
 Example c05_example_runs :
   let letters c := (97 <=? c) && (c <=? 122) in
-  let '(s, d) := run_sops 9 [SUntil letters; SChar; SChar] (init [[97; 98; 13]; [10; 99]; [100]]) in
+  let '(s, d) := run_sops 9 [SPeek; SUntil letters; SPeek; SChar; SChar; SPeek] (init [[97; 98; 13]; [10; 99]; [100]]) in
   d = [97; 98; 10; 99] /\ position s = (2, 1)%nat /\ remaining s = [100].
 Proof. vm_compute. repeat split. Qed.
